@@ -4,7 +4,7 @@ CONSTANTS
   ValSet = {}
   SizeSet = {}
   CapSet = {}
-INVARIANTS SizeIsSum Bounded TinyCounts
+INVARIANTS TinyCounts
 CONSTRAINT Mark
 POSTCONDITION Accepted
 VIEW TView
